@@ -19,6 +19,7 @@ def handle (line : String) : String :=
   | ["ping"] => "ok pong"
   | ["lex", src] => "ok " ++ lexOp src
   | ["exec", toks] => "ok " ++ execOp toks
+  | ["compile", prog] => "ok " ++ compileOp prog
   | ["generate", tb, pf, tracks] =>
       "ok bin=" ++ hex (generateSong (parseInt tb) (parseInt pf) (parseTracks tracks))
   | ["spec.c01", bin, n, tb] => "ok " ++ specC01 (unhex bin) (parseNat n) (parseNat tb)
